@@ -50,8 +50,25 @@ def eval_program(arg) -> dict:
         return log
 
     what_sem = dict(prog.mapping)
+    # the registered clients are an input dimension: how many (none at all included), how they
+    # are spelled and in which order they register
+    clients = tuple(scripts.client_ids(rng, 1 + (stream // 3) % 3)) if mci else ()
+    case['clients'] = list(clients)
+
+    def late_registration_refused(log, registered):
+        cnt['late_registrations'] = cnt.get('late_registrations', 0) + 1
+        cnt[f'late_registration_after_{len(registered)}_clients'] = 1
+        if any(r['kind'] == 'registered' and r['d']['client'] == 'LATE' for r in log):
+            out['violations'].append({'mechanism': 'client-registered-after-final-construction',
+                                      'detail': {'clients_before': list(registered)}, 'case': case})
+        ids = next((r['d']['ids'] for r in log if r['kind'] == 'clients'), '')
+        if 'LATE' in ids:
+            out['violations'].append({'mechanism': 'client-registered-after-final-construction',
+                                      'detail': {'ids': ids, 'clients_before': list(registered)},
+                                      'case': case})
+
     # all bound: must succeed and record the parent
-    log = play(scripts.preamble(prog) + ['final', 'addresses'] +
+    log = play(scripts.preamble(prog, clients=clients) + ['final', 'addresses'] +
                (['register LATE', 'clients'] if mci else []), 'all_bound', False, '-')
     if log is not None:
         cnt['all_bound_runs'] = 1
@@ -60,15 +77,15 @@ def eval_program(arg) -> dict:
             out['violations'].append({'mechanism': 'parent-not-recorded-in-component-meta',
                                       'detail': {}, 'case': case})
         if mci:
-            cnt['late_registrations'] = 1
-            if any(r['kind'] == 'registered' and r['d']['client'] == 'LATE' for r in log):
-                out['violations'].append({'mechanism': 'client-registered-after-final-construction',
-                                          'detail': {}, 'case': case})
-            ids = next((r['d']['ids'] for r in log if r['kind'] == 'clients'), '')
-            if 'LATE' in ids:
-                out['violations'].append({'mechanism': 'client-registered-after-final-construction',
-                                          'detail': {'ids': ids}, 'case': case})
-    log = play(scripts.preamble(prog) + ['final noparent', 'addresses'], 'no_parent', False, '-')
+            late_registration_refused(log, clients)
+    if mci:
+        # a multi-client port nobody has registered on yet: nothing is unbound, and the
+        # registration is closed all the same
+        log = play(scripts.preamble(prog, clients=()) + ['final', 'addresses', 'register LATE',
+                                                          'clients'], 'no_clients', False, '-')
+        if log is not None:
+            late_registration_refused(log, ())
+    log = play(scripts.preamble(prog, clients=clients) + ['final noparent', 'addresses'], 'no_parent', False, '-')
     if log is not None:
         addr = next((r['d'] for r in log if r['kind'] == 'addresses'), None)
         if addr and addr['comp_parent'] != 0:
@@ -82,9 +99,8 @@ def eval_program(arg) -> dict:
     picks = user_bound if len(user_bound) <= limit else rng.sample(user_bound, limit)
     for pname, ev in picks:
         key = f'{pname}/{ev.name}'
-        clients = ['A', 'B'] if (mci and mci['port'] == pname) else ['-']
-        for client in clients:
-            play(scripts.preamble(prog, skip=key, skip_client=client) + ['final'],
+        for client in (clients if (mci and mci['port'] == pname) else ['-']):
+            play(scripts.preamble(prog, clients=clients, skip=key, skip_client=client) + ['final'],
                  f'skip_{pname}_{ev.name}_{client}', True, key)
             cnt['user_side_bindings_omitted'] = cnt.get('user_side_bindings_omitted', 0) + 1
             sem = prog.mapping.get(pname)
@@ -96,14 +112,14 @@ def eval_program(arg) -> dict:
     picks = comp_bound if len(comp_bound) <= limit else rng.sample(comp_bound, limit)
     for pname, ev in picks:
         key = f'{pname}/{ev.name}'
-        play(scripts.preamble(prog) + [f'compunbind {key}', 'final'],
+        play(scripts.preamble(prog, clients=clients) + [f'compunbind {key}', 'final'],
              f'compunbind_{pname}_{ev.name}', True, key)
         cnt['component_side_bindings_omitted'] = cnt.get('component_side_bindings_omitted', 0) + 1
     # bound, then unbound again (late unbind of a user-side event)
     if user_bound:
         pname, ev = rng.choice(user_bound)
-        client = 'B' if (mci and mci['port'] == pname) else '-'
-        play(scripts.preamble(prog) + [f'unbind {pname}/{ev.name} {client}', 'final'],
+        client = clients[-1] if (mci and mci['port'] == pname) else '-'
+        play(scripts.preamble(prog, clients=clients) + [f'unbind {pname}/{ev.name} {client}', 'final'],
              f'unbind_{pname}_{ev.name}', True, f'{pname}/{ev.name}')
         cnt['rebound_then_unbound'] = 1
     cnt['programs'] = 1
@@ -118,14 +134,16 @@ def main(tier: str) -> int:
     run.require('final_constructions', 'all_bound_runs', 'user_side_bindings_omitted',
                 'component_side_bindings_omitted', 'omitted_on_STS_port', 'omitted_on_MTS_port',
                 'omitted_on_multiclient_port', 'late_registrations',
+                'late_registration_after_0_clients',
                 'omitted_on_MTS_requires_port', 'omitted_on_MTS_provides_port',
                 'omitted_on_STS_requires_port', 'omitted_on_STS_provides_port')
     scratch = run.scratch()
     progrun.drive(run, eval_program, [(run.seed, i, scratch, tier) for i in range(n)])
     return run.finish(
-        rule='random models/configurations (every third with a multi-client port, clients A and '
-             'B registered); per program: all bound (must succeed, parent recorded, late '
-             'registration refused), then one run per omitted binding over all user-side events '
+        rule='random models/configurations (every third with a multi-client port with 1-3 clients '
+             'of structured identifiers registered in ascending, descending or arbitrary order); '
+             'per program: all bound (must succeed, parent recorded, late registration refused; '
+             'for multi-client ports also with no client registered at all), then one run per omitted binding over all user-side events '
              'of all exposed ports (per client) and over the component\'s own handlers (capped at '
              '12/40 each per program), each of which must end in a binding error; evaluations = '
              'programs',
